@@ -455,7 +455,10 @@ REAL_OK = {"init": {0, 2}, "rep_open": {0, 2}, "req_open": {0, 2}, "rep_recvtime
            "dial": {0, 2, 6, 7, 13, 18, 19, 31},
            # after a failure inside the exchange a message may be lost (documented best effort): time-outs, wrong state
            "req_send": {0, 2, 5, 7}, "rep_recv": {0, 2, 5, 7}, "rep_send": {0, 2, 5, 7, 11}, "req_recv": {0, 2, 5, 7, 11, 19, 31},
-           "stats": {0, 2}, "req_close": {0}, "rep_close": {0}}
+           "stats": {0, 2}, "req_close": {0}, "rep_close": {0},
+           # with the failure over, later calls on the same listener and REP socket must work
+           "after_open": {0}, "after_dial": {0}, "after_req_send": {0}, "after_rep_recv": {0}, "after_rep_send": {0},
+           "after_req_recv": {0}, "after_close": {0}}
 
 
 def real_judge(rc, lines, err):
